@@ -20,7 +20,7 @@ import (
 	"verifextract/ex"
 )
 
-func main() { ex.Main([]string{"Caps.lean"}, gen) }
+func main() { ex.Main([]string{"Caps.lean", "InputBody.lean"}, gen) }
 
 func strList(xs []string) string {
 	var q []string
@@ -303,6 +303,7 @@ func gen(c *ex.Ctx) {
 	}
 	sb.WriteString("\nend VaxisModel.Gen.Caps\n")
 	c.Write("Caps.lean", sb.String())
+	genBody(c)
 }
 
 func labelOf(b *ast.BranchStmt) string {
